@@ -146,6 +146,9 @@ type cellSpec struct {
 	pad             int
 	big             [][2]int // (entry, size) of the big entries
 	srcS            string   // "uris" / "both": forced source kind, whatever the format and the number of entries
+	// round 6
+	rc   int  // the context is cancelled inside the rc-th Read of the ammo file (file sources only)
+	noCE bool // never give the explicitly empty chosencases list
 }
 
 func (c cellSpec) line() string {
@@ -193,6 +196,14 @@ func (c cellSpec) line() string {
 	}
 	if c.pre {
 		s += " pre=1"
+	}
+	// round 6: half of the cells without chosencases GIVE the list, empty (`chosencases: []`, ChosenCases: []string{}) —
+	// no filter, exactly like the absent key
+	if len(c.cases) == 0 && !c.noCE && (len(c.tags)+c.limit+2*c.passes+c.layout)%2 == 0 {
+		s += " ce=1"
+	}
+	if c.rc > 0 {
+		s += fmt.Sprintf(" rc=%d", c.rc)
 	}
 	// round 4: a fifth of the cells has one or two middlewares (c14cell.Cell.MW)
 	if h := len(c.tags) + 3*c.limit + 2*c.passes + c.layout + 2*len(c.cases) + len(c.ch); h%5 == 2 {
@@ -586,6 +597,33 @@ func gen(r *rand.Rand, tier string) []string {
 		}
 	}
 
+	// (F) round 6: the context is cancelled INSIDE a Read of the ammo file, while the decoder is in the middle of its first
+	// Scan call (rc=1: the first Read of the run; rc=2 on sources padded beyond the read buffer: the second Read, still the
+	// first entry).  Something is always chosen; the first entry is chosen or not; header lines / blank lines before the
+	// first entry (uri / uripost `fh=0:…`, layouts 1 and 3) make that Scan call go round its loop once more.
+	for _, f := range formats {
+		if f == c14cell.KJSONArr {
+			continue // the constructor has decoded the whole array: Run never reads the file
+		}
+		for _, tags := range [][]string{{"a"}, {"a", "b"}, {"b", "a", "a"}, {"a", "b", "c", "a"}} {
+			for ci, cases := range [][]string{nil, {"a"}, {"a", "b"}} {
+				for bi, b := range [][2]int{{0, 0}, {1, 0}, {0, 1}, {3, 2}, {0, 2}} {
+					for lay := 0; lay < 4; lay++ {
+						c := cellSpec{format: f, tags: tags, cases: cases, limit: b[0], passes: b[1], cap: 50, layout: lay,
+							yaml: (lay+bi+ci)%2 == 1, rc: 1}
+						if (f == c14cell.KURI || f == c14cell.KURIPost) && (lay+bi)%2 == 0 {
+							c.fh = []c14cell.HdrAt{{Pos: 0, Key: "X-First", Val: "v" + strconv.Itoa(bi)}}
+						}
+						if (len(tags)+ci+bi+lay)%5 == 0 {
+							c.pad, c.rc = 5000, 2
+						}
+						add(c)
+					}
+				}
+			}
+		}
+	}
+
 	// (E) random cells
 	extra := 8000
 	maxN := 9
@@ -767,6 +805,7 @@ func cellOf(input string, preload bool) c14cell.Cell {
 		Tags: listOf(kv["tags"]), Chosen: listOf(kv["cases"]), Cap: atoi(kv["cap"]), Layout: atoi(kv["junk"]),
 		Uris: kv["src"] == "uris", YAML: kv["via"] == "yaml" || kv["via"] == "http", Generic: kv["via"] == "http", FH: parseFH(kv["fh"]), CH: parseCH(kv["ch"]),
 		Pre: kv["pre"] == "1", Hold: kv["hold"] == "1", MW: atoi(kv["mw"]), CloseFail: kv["cf"] == "1", Pad: atoi(kv["pad"]), Both: kv["src"] == "both",
+		EmptyCases: kv["ce"] == "1", ReadCancel: atoi(kv["rc"]),
 	}
 	if kv["big"] != "" {
 		c.Big = map[int]int{}
@@ -1051,6 +1090,15 @@ func class(input, obs string) string {
 	if kv["pre"] == "1" {
 		b = "precancelled"
 	}
+	if kv["rc"] != "" {
+		b = "cancelled-inside-scan"
+		if strings.HasPrefix(kv["fh"], "0:") || kv["junk"] == "1" || kv["junk"] == "3" {
+			b += "+loops-again"
+		}
+	}
+	if kv["ce"] == "1" {
+		sel = "emptylist"
+	}
 	if kv["cf"] == "1" {
 		b += "+closefault"
 	}
@@ -1086,6 +1134,7 @@ func main() {
 			"plus random files (tags from {a,b,c,ab,B,untagged,'a b'}), random chosencases subsets (incl. nothing-matching, duplicates), bounds and (a third) random header declarations; " +
 			"round 3: a failing Close of the ammo file (alone, with a cancellation in the middle, with nothing chosen), bounds up to 2^64-1, sources padded beyond the decoders' buffers (4 KiB, 64 KiB), one entry around the 1 MiB read chunk; " +
 			"the consumer treats every request like a gun (mutates it after looking at it); every cell side follows other providers in its process (a prelude provider with another configuration at the start of a child and before every eighth cell); " +
+			"round 6: half of the cells without chosencases give the list explicitly empty (ce=1); cells whose context is cancelled inside the first / second Read of the ammo file, i.e. in the middle of the first Scan call (rc=K; header lines or blank lines first make that call go round its loop again) — both modes must end the same way as core/engine sees it (canceledw = a cancellation errutil.IsCtxError does not recognise); " +
 			"every cell runs in a child process (a fatal runtime error of the code under test is the observation run=fatal:<class>); class = format(source) / filter shape / bound shape [+headers]",
 	})
 }
